@@ -244,14 +244,6 @@ theorem opaque_types_bytewise (buf : Bytes) (off len ty : Nat) (h : layoutOf ty 
 
 /-! ### round 3: ASCII names need nothing from the idna codec -/
 
-/-- a host-name style label: 1..63 ASCII bytes, no dot, no ACE prefix `xn--` anywhere. For such a label the model
-    never consults the `Idna` parameter: both directions are the codec's transcribed ASCII fast path. -/
-def asciiPart (p : Text) : Bool :=
-  !p.isEmpty && decide (p.length < 64) && isAscii p && !hasAce p && !p.contains 46
-
-/-- a name all of whose labels are `asciiPart` (or the root name) -/
-def asciiName (t : Text) : Bool := t.isEmpty || (splitDot t).all asciiPart
-
 private theorem asciiPart_good (I : Idna) (p : Text) (h : asciiPart p = true) :
     encPart I p = some p ∧ decLabel I p = some p := by
   simp only [asciiPart, Bool.and_eq_true, Bool.not_eq_true', decide_eq_true_eq, List.isEmpty_eq_false_iff] at h
@@ -270,15 +262,6 @@ theorem canon_of_ascii (I : Idna) (t : Text) (h : asciiName t = true) : CanonNam
   rcases h with h | h
   · exact Or.inl h
   · exact Or.inr (fun p hp => ⟨p, asciiPart_good I p (h p hp)⟩)
-
-/-- well-formedness that does not mention the idna codec at all (decidable by computation) -/
-def wellFormedAscii (m : Msg) : Bool :=
-  decide (m.id < 65536) && decide (m.opCode < 16) && decide (m.reserved < 8) && decide (m.rcode < 16) &&
-  decide (m.questions.length < 65536) && decide (m.answers.length < 65536) && decide (m.authorities.length < 65536) &&
-  decide (m.additionals.length < 65536) &&
-  m.questions.all (fun q => asciiName q.name && decide (q.type < 65536) && decide (q.cls < 65536)) &&
-  (records m).all (fun r => asciiName r.name && decide (r.type < 65536) && decide (r.cls < 65536) &&
-    decide (r.ttl < 4294967296) && decide (r.data.length < 65536) && rdataPlain r.type r.data)
 
 /-- **C25 (round trip, ASCII names, outright).** For messages whose names consist of ASCII labels (the fast path that
     `str.encode("idna")`/`bytes.decode("idna")` take for them is transcribed in the model) the round trip holds for
